@@ -4,7 +4,7 @@ import vcheck
 from checks import _schema_common as sc
 
 PID = "C02"
-MODULES = ["BeffVerif.Props.C02", "BeffVerif.Props.C02Eval", "BeffVerif.Props.C02Frag", "BeffVerif.Props.C02Sound", "BeffVerif.Props.C02Complete", "BeffVerif.Props.C16Refs", "BeffVerif.Props.Consts"]
+MODULES = ["BeffVerif.Props.C02", "BeffVerif.Props.C02Eval", "BeffVerif.Props.C02Frag", "BeffVerif.Props.C02Sound", "BeffVerif.Props.C02Complete", "BeffVerif.Props.C16Refs", "BeffVerif.Props.Consts", "BeffVerif.Props.C02NonJson"]
 AUDIT = "BeffVerif/Audit/C02.lean"
 TAGS = ("c02.",)
 MODE = "schema"
